@@ -26,6 +26,11 @@ RULE = ('datasets of all five convention classes (UGRID with and without an edge
         'coordinate pair of another shape into the dataset (staggered grids; the names select either pair) '
         'and places CF 1-D axes on the globe (longitudes going exactly once round it, with the cyclic point '
         'repeated, one cell short; latitudes pole to pole). '
+        'In both streams three datasets in four (all conventions, walked systematically) get a depth and a time '
+        'coordinate and a history: one to three ordinary read-only questions (the grid kind of every variable incl. '
+        'those on no grid, depth / time coordinates, geometry, ravel / wind of variables, selections, a clip mask, '
+        'refused index questions, …) are put to the convention object before the index questions; the expected '
+        'answers stay those of the generator (what was asked before may not change an index space). '
         'The grid shapes given to the model come from the generator, not from emsarray. '
         'A case is non-trivial when its grid has >= 2 cells in a non-square or 1-D shape, or is an '
         'out-of-range probe; distinct = distinct (convention, shape, kind, op, argument).')
@@ -68,17 +73,28 @@ def exercise(ctx, items: list, recipe: dict, tag: str) -> None:
     spec = built.grids_spec()
     ctx.count(f'{tag}conv:{conv}' + ('+edge' if 'edge' in built.grids else ''))
     ctx.evaluated()
+    history = recipe.get('c01_history') or []
+    ctx.count(f'{tag}history-length:{len(history)}')
+    for op in history:
+        ctx.count(f'history:{op}')
+    after = f' (after the questions {history} were put to the same convention object)' if history else ''
+
+    def fail(signature, desc, message):
+        ctx.oracle_fail(signature, desc, message + after)
+
     try:
         c = X.bind(built)
     except Exception as e:  # noqa: BLE001
         # a supported dataset for which no convention object can be had: none of its indexes converts
-        ctx.oracle_fail('convention-construction-raises', desc0,
+        fail('convention-construction-raises', desc0,
                         f'constructing / binding {built.conv_class.__name__} raised {type(e).__name__}: {e}')
         return
+    for op, exc in built.extra.get('c01_history_raised', []):
+        ctx.count(f'history-raised:{op}:{exc}')
     # grid kinds and sizes, against the generator's ground truth
     impl_kinds = sorted(str(getattr(k, 'value', k)) for k in c.grid_kinds)
     if impl_kinds != sorted(built.grids):
-        ctx.oracle_fail('grid-kinds', desc0, f'grid_kinds {impl_kinds} != {sorted(built.grids)}')
+        fail('grid-kinds', desc0, f'grid_kinds {impl_kinds} != {sorted(built.grids)}')
     kind_objs = {getattr(k, 'value', k): k for k in c.grid_kinds}
     all_kind_objs = {k.value: k for k in type(next(iter(c.grid_kinds)))}
     for kind, (dims, shape) in built.grids.items():
@@ -93,7 +109,7 @@ def exercise(ctx, items: list, recipe: dict, tag: str) -> None:
             impl_size = 'ERR'
         items.append((f'size {spec} {built.default_kind} {kind}', impl_size, desc0))
         if impl_size != str(size):
-            ctx.oracle_fail('grid-size', {'recipe': recipe, 'kind': kind},
+            fail('grid-size', {'recipe': recipe, 'kind': kind},
                             f'grid_size[{kind}] = {impl_size}, the grid {dims} = {shape} has {size} locations')
         interesting = size >= 2 and (len(shape) == 1 or shape[0] != shape[1])
         seen_native = {}
@@ -115,27 +131,27 @@ def exercise(ctx, items: list, recipe: dict, tag: str) -> None:
                 # direct oracle: range, row-major position, round trip, injectivity
                 if 0 <= n < size:
                     if got is None:
-                        ctx.oracle_fail('wind-in-range-raises', {'recipe': recipe, 'kind': kind, 'n': n},
+                        fail('wind-in-range-raises', {'recipe': recipe, 'kind': kind, 'n': n},
                                         f'wind_index({n}) raised on a grid of size {size}')
                     else:
                         exp = f"{kind}:{','.join(map(str, unravel(n, shape)))}"
                         if out != exp:
-                            ctx.oracle_fail('wind-not-row-major', {'recipe': recipe, 'kind': kind, 'n': n},
+                            fail('wind-not-row-major', {'recipe': recipe, 'kind': kind, 'n': n},
                                             f'wind_index({n}) = {out}, row-major order over {dims} = {shape} gives {exp}')
                         try:
                             back = int(c.ravel_index(got))
                         except Exception as e:
                             back = f'ERR {e}'
                         if back != n:
-                            ctx.oracle_fail('roundtrip-linear', {'recipe': recipe, 'kind': kind, 'n': n},
+                            fail('roundtrip-linear', {'recipe': recipe, 'kind': kind, 'n': n},
                                             f'ravel_index(wind_index({n})) = {back}')
                         if explicit:
                             if out in seen_native:
-                                ctx.oracle_fail('wind-not-injective', {'recipe': recipe, 'kind': kind, 'n': n},
+                                fail('wind-not-injective', {'recipe': recipe, 'kind': kind, 'n': n},
                                                 f'wind_index({n}) == wind_index({seen_native[out]}) == {out}')
                             seen_native[out] = n
                 elif got is not None:
-                    ctx.oracle_fail('wind-out-of-range-accepted', {'recipe': recipe, 'kind': kind, 'n': n},
+                    fail('wind-out-of-range-accepted', {'recipe': recipe, 'kind': kind, 'n': n},
                                     f'wind_index({n}) = {out} on a grid of size {size}')
         # native indexes: all in range + a margin
         ranges = [range(-2, s + 2) for s in shape]
@@ -174,7 +190,7 @@ def exercise(ctx, items: list, recipe: dict, tag: str) -> None:
                 for v, s in zip(comps, shape):
                     exp = exp * s + v
                 if lin != exp:
-                    ctx.oracle_fail('not-row-major', {'recipe': recipe, 'kind': kind, 'index': comps},
+                    fail('not-row-major', {'recipe': recipe, 'kind': kind, 'index': comps},
                                     f'ravel_index({comps}) = {out}, row-major over {dims} = {shape} gives {exp}')
                 else:
                     try:
@@ -183,29 +199,39 @@ def exercise(ctx, items: list, recipe: dict, tag: str) -> None:
                     except Exception as e:
                         back_s = f'ERR {e}'
                     if back_s != f"{kind}:{','.join(map(str, comps))}":
-                        ctx.oracle_fail('roundtrip-native', {'recipe': recipe, 'kind': kind, 'index': comps},
+                        fail('roundtrip-native', {'recipe': recipe, 'kind': kind, 'index': comps},
                                         f'wind_index(ravel_index({comps})) = {back_s}')
             elif lin is not None:
-                ctx.oracle_fail('ravel-out-of-range-accepted', {'recipe': recipe, 'kind': kind, 'index': comps},
+                fail('ravel-out-of-range-accepted', {'recipe': recipe, 'kind': kind, 'index': comps},
                                 f'ravel_index({comps}) = {lin} on shape {shape}')
     # a kind the dataset does not have (UGRID without edges; a made-up kind elsewhere)
     for kind in set(all_kind_objs) - set(built.grids):
         native = make_native(built, c, kind, (0,) * (1 if conv == 'ugrid' else 2))
         try:
             out = str(int(c.ravel_index(native)))
-            ctx.oracle_fail('absent-kind-accepted', {'recipe': recipe, 'kind': kind}, f'ravel_index on absent kind {kind} = {out}')
+            fail('absent-kind-accepted', {'recipe': recipe, 'kind': kind}, f'ravel_index on absent kind {kind} = {out}')
         except Exception:
             out = 'ERR'
         line = f"ravel {spec} {built.default_kind} {kind} {'0' if conv == 'ugrid' else '0,0'}"
         items.append((line, out, {'recipe': recipe, 'op': line}))
         try:
             out = native_str(conv, c.wind_index(0, grid_kind=all_kind_objs[kind]))
-            ctx.oracle_fail('absent-kind-accepted', {'recipe': recipe, 'kind': kind}, f'wind_index on absent kind {kind} = {out}')
+            fail('absent-kind-accepted', {'recipe': recipe, 'kind': kind}, f'wind_index on absent kind {kind} = {out}')
         except Exception:
             out = 'ERR'
         line = f"wind {spec} {built.default_kind} {kind} 0"
         items.append((line, out, {'recipe': recipe, 'op': line}))
         ctx.nontrivial((conv, 'absent-kind', kind))
+
+
+def with_history(rng, recipe: dict, u: int) -> dict:
+    """the recipe with the history of its convention object (and depth / time coordinates for it to look at)"""
+    history = X.random_history(rng, u)
+    if not history:
+        return recipe
+    recipe = X.with_layers(rng, recipe)
+    recipe['c01_history'] = history
+    return recipe
 
 
 def run(ctx) -> None:
@@ -226,11 +252,14 @@ def run(ctx) -> None:
         recipe = G.random_recipe(rng, conv, ctx.tier, vary=True, **kw)
         # data variables in arbitrary dimension orders: the grid's shape and index order may not follow them
         recipe = G.attach_vars(rng, recipe, n_vars=2, max_extra=1)
+        # what was asked of the convention object before (walked per convention: d // 5 is the dataset's rank in it)
+        recipe = with_history(rng, recipe, d // len(G.CONVS))
         ctx.guarded(lambda: exercise(ctx, items, recipe, ''), {'recipe': recipe})
     # second stream: how the convention object is obtained, a second coordinate pair, axes placed on the globe
     for k in range(ctx.budget(40, 160)):
         recipe = X.random_extra(rng, k, ctx.tier)
         recipe = G.attach_vars(rng, recipe, n_vars=2, max_extra=1)
+        recipe = with_history(rng, recipe, k)
         info = recipe['c01']
         ctx.count(f"bind:{info['bind']}/{info['pair']}" + ('+2nd-pair' if info['extra'] else ''))
         ctx.count(f"lon:{info['lon_class']}")
@@ -253,6 +282,9 @@ def run_one(ctx, inp: dict) -> dict:
     if info:
         out['convention'] = (f"{built.conv_class.__name__} obtained by {info['bind']!r}, coordinates "
                              f"{built.extra['c01_names']}, grid {built.grids_spec()}")
+    if inp['recipe'].get('c01_history'):
+        out['history'] = ('questions put to the convention object before this one: '
+                          + ', '.join(inp['recipe']['c01_history']))
     try:
         c = X.bind(built)
     except Exception as e:  # noqa: BLE001
